@@ -46,7 +46,14 @@ pub struct MonReporter {
 impl Reporter for MonReporter {
     fn generic_report(&self, _s: &str) {}
 
-    fn report_search_progress(&mut self, _game: &Game, p: SearchInfo) {
+    fn report_search_progress(&mut self, game: &Game, p: SearchInfo) {
+        // the position handed to the reporter is the one being searched (reporters replay the line on it)
+        if game.zobrist != self.monitor.root.zobrist || game.history.len() != self.monitor.root.history.len() {
+            self.found.push((
+                "report-wrong-position".to_string(),
+                format!("a line was reported together with the position {} instead of the searched position {}", game.to_fen(), self.monitor.root.to_fen()),
+            ));
+        }
         let score = match p.score {
             SearchScore::Centipawns(c) => Score::Cp(c as i32),
             SearchScore::Mate(m) => Score::Mate(m as i32),
